@@ -486,6 +486,49 @@ class PostInit(Harness):
         return (st["H"].verify(PW, _known()["md5_crypt"]), st["ctx"].verify(PW, _known()["sha256_crypt"]))
 
 
+class LazyWrapper(Harness):
+    """a lazily resolved PrefixWrapper (the kind passlib.handlers.ldap_digests creates for ldap_*_crypt): the wrapped
+    hasher and the derived ident / ident_values are worked out on first access"""
+
+    name = "lazy_wrapper"
+
+    def __init__(self, ops):
+        self.ops = ops
+
+    def codes(self):
+        import passlib.utils.handlers as uh
+
+        W = uh.PrefixWrapper
+        cs = [W._get_wrapped, W._wrap_hash, W._unwrap_hash, W.identify, W.hash, W.verify]
+        for n in ("ident", "ident_values", "wrapped"):
+            p = vars(W).get(n)
+            if isinstance(p, property) and p.fget is not None:
+                cs.append(p.fget)
+        return cs
+
+    def fresh(self):
+        import passlib.utils.handlers as uh
+
+        return {"W": uh.PrefixWrapper("c19_lazy_md5", "md5_crypt", "{X}", lazy=True)}
+
+    def body(self, st, op):
+        W = st["W"]
+        K = _known()
+        if op == "ident":
+            return lambda: W.ident
+        if op == "ident_values":
+            return lambda: W.ident_values
+        if op == "identify":
+            return lambda: W.identify("{X}" + K["md5_crypt"])
+        if op == "verify":
+            return lambda: W.verify(PW, "{X}" + K["md5_crypt"])
+        raise KeyError(op)
+
+    def post(self, st):
+        W = st["W"]
+        return (W.ident, W.ident_values, W.wrapped.name)
+
+
 class LazyTables(Harness):
     """lazily built module-level tables, first use from two threads: the DES permutation tables
     (passlib.crypto.des._load_tables, checked through ONE of the four globals) and the digest-info cache of
@@ -638,6 +681,8 @@ def make_harness(spec):
         return PurePython(ops)
     if kind == "lazy_tables":
         return LazyTables(ops)
+    if kind == "lazy_wrapper":
+        return LazyWrapper(ops)
     raise core.HarnessError(f"unknown harness {kind}")
 
 
@@ -817,6 +862,9 @@ def harness_specs(quick):
         add(f"backend_{hn}", ("hash", "verify"), b2)
         add(f"backend_{hn}", ("verify", "has_backend"), b2)
     add("backend_bcrypt", ("hash", "verify"), 1)
+    add("lazy_wrapper", ("ident", "ident_values"), b2)
+    add("lazy_wrapper", ("ident", "ident"), b2)
+    add("lazy_wrapper", ("identify", "ident_values"), b2)
     add("lazy_tables", ("desint:a", "desblock:b"), b2)
     add("lazy_tables", ("blowfish:a", "blowfish:b"), b2)
     add("lazy_tables", ("lookup:sha256", "lookup:sha256"), b2)
